@@ -538,13 +538,17 @@ async fn remote<P: Protocol>(
     // the guard must not be alive while the previous connection is notified
     let previous = will_handlers.lock().unwrap().remove(&client_id);
     if let Some(sender) = previous {
-        let awaiting_will = if clean_session {
-            AwaitingWill::Fire
-        } else {
-            AwaitingWill::Cancel
-        };
-        // the previous connection's task may have returned already
-        sender.try_send(awaiting_will).ok();
+        if clean_session {
+            // A clean start ends the previous session: a will it left pending is due now.
+            // It is requested from here, ahead of this connection's own Connect event: the
+            // router keeps wills per client id, so a request that the previous connection's
+            // task sent after that event would publish the will of THIS connection.
+            let message = Event::PublishWill((client_id.clone(), tenant_id.clone()));
+            router_tx.send((0, message)).ok();
+        }
+        // the previous connection's task has nothing left to publish (it may have returned
+        // already)
+        sender.try_send(AwaitingWill::Cancel).ok();
     }
 
     let (will_tx, will_rx) = flume::bounded::<AwaitingWill>(1);
